@@ -13,6 +13,24 @@ set_option linter.unusedSectionVars false
 
 variable {V : Type} [DecidableEq V]
 
+theorem pairwise_lt_strictInc : ∀ (l : List Nat), l.Pairwise (· < ·) → strictIncNat l = true := by
+  intro l
+  induction l with
+  | nil => intro _; rfl
+  | cons a t ih =>
+    intro h
+    cases t with
+    | nil => rfl
+    | cons b u =>
+      have h' := List.pairwise_cons.mp h
+      simp only [strictIncNat, Bool.and_eq_true, decide_eq_true_eq]
+      exact ⟨h'.1 b (List.mem_cons_self ..), ih h'.2⟩
+
+theorem getLastD_cons_snoc (a n d : Nat) (l : List Nat) : (a :: (l ++ [n])).getLastD d = n := by
+  have : a :: (l ++ [n]) = (a :: l) ++ [n] := rfl
+  rw [this, List.getLastD_eq_getLast?, List.getLast?_append]
+  simp
+
 theorem zip_append_right_of_le {α β : Type} : ∀ (l : List α) (m x : List β), l.length ≤ m.length →
     List.zip l (m ++ x) = List.zip l m := by
   intro l
@@ -55,7 +73,7 @@ theorem wf_view (c : Cat V) (h : c.WF) (hne : c.idx ≠ []) :
             rw [getLastD_cons_cons, List.getLastD_eq_getLast?, List.getLast?_eq_getLast (l := b :: u) (by simp)]
             rfl
         rw [hN]
-        exact (List.dropLast_append_getLast hetne).symm
+        exact (List.dropLast_concat_getLast hetne).symm
 
 theorem perDump_view (c : Cat V) (i0 e0 : Nat) (rest : List (Nat × Nat)) (N : Nat)
     (hi : c.idx = i0 :: rest.map (·.1)) (he : c.ev = e0 :: (rest.map (·.2) ++ [N])) :
@@ -67,7 +85,8 @@ theorem perDump_view (c : Cat V) (i0 e0 : Nat) (rest : List (Nat × Nat)) (N : N
   simp only [List.map_map, Function.comp] at this
   rw [expandFrom_map]
   rw [← this]
-  simp only [List.map_map, Function.comp]
+  simp only [List.map_map]
+  rfl
 
 /-- **remove_repeats never changes any dump's value** (and keeps the series well-formed, with the
     same number of dumps and unique values, and without equal neighbouring indices) -/
@@ -91,7 +110,7 @@ theorem removeRepeats_spec (c : Cat V) (h : c.WF) (hne : c.idx ≠ []) :
   · -- well-formed
     have hsub : (keepChanges (some i0) rest).Sublist rest := keepChanges_sublist _ _
     refine ⟨?_, by simp, ?_, h.2.2.2⟩
-    · apply C10aux_pairwise_strict
+    · apply pairwise_lt_strictInc
       have : (e0 :: ((keepChanges (some i0) rest).map (·.2) ++ [c.numDumps])).Sublist
           (e0 :: (rest.map (·.2) ++ [c.numDumps])) :=
         List.Sublist.cons_cons _ (List.Sublist.append (List.Sublist.map _ hsub) (List.Sublist.refl _))
@@ -121,8 +140,336 @@ theorem removeRepeats_spec (c : Cat V) (h : c.WF) (hne : c.idx ≠ []) :
       have := (List.pairwise_cons.mp hsorted).1 c.numDumps (by simp)
       omega
     exact keepChanges_expand c.numDumps rest e0 i0 hle hN he0
-  · simp [Cat.numDumps, List.getLastD_eq_getLast?, List.getLast?_cons_cons, List.getLast?_append]
-    sorry
-  · sorry
+  · simp only [Cat.numDumps]
+    exact getLastD_cons_snoc _ _ _ _
+  · obtain ⟨h1, h3⟩ := keepChanges_no_repeat rest (some i0)
+    intro k x y hx hy
+    cases k with
+    | zero =>
+      simp only [List.getElem?_cons_zero, Option.some.injEq] at hx
+      simp only [Nat.zero_add, List.getElem?_cons_succ] at hy
+      subst hx
+      rw [List.head?_eq_getElem?] at h1
+      have := h1 y hy
+      simpa using this
+    | succ k =>
+      simp only [List.getElem?_cons_succ] at hx hy
+      exact h3 k x y hx hy
+
+/-! ### concatenation -/
+
+theorem expand_append {α : Type} : ∀ (A : List Nat) (VA : List α) (b : Nat) (B : List Nat) (VB : List α),
+    A.length = VA.length →
+    expand (A ++ b :: B) (VA ++ VB) = expand (A ++ [b]) VA ++ expand (b :: B) VB := by
+  intro A
+  induction A with
+  | nil =>
+    intro VA b B VB h
+    cases VA with
+    | nil => simp [expand]
+    | cons v t => simp at h
+  | cons a A' ih =>
+    intro VA b B VB h
+    cases VA with
+    | nil => simp at h
+    | cons v VA' =>
+      have h' : A'.length = VA'.length := by simpa using h
+      cases A' with
+      | nil =>
+        cases VA' with
+        | nil => simp [expand]
+        | cons w t => simp at h'
+      | cons a' A'' =>
+        have := ih VA' b B VB h'
+        simp only [List.cons_append, expand] at this ⊢
+        rw [this, List.append_assoc]
+
+theorem expand_shift {α : Type} (s : Nat) : ∀ (ev : List Nat) (vals : List α),
+    expand (ev.map (· + s)) vals = expand ev vals := by
+  intro ev
+  induction ev with
+  | nil => intro vals; rfl
+  | cons a t ih =>
+    intro vals
+    cases t with
+    | nil => simp [expand]
+    | cons b u =>
+      cases vals with
+      | nil => simp [expand]
+      | cons v vs =>
+        have := ih vs
+        simp only [List.map_cons, expand] at this ⊢
+        rw [this]
+        congr 2
+        omega
+
+/-- running sums used by `cumsum0` -/
+def runSums : Nat → List Nat → List Nat
+  | _, [] => []
+  | tot, x :: t => (tot + x) :: runSums (tot + x) t
+
+theorem cumsum0_eq (l : List Nat) : cumsum0 l = 0 :: runSums 0 l := by
+  have h : ∀ (l : List Nat) (pre : List Nat) (tot : Nat),
+      (l.foldl (fun (acc : List Nat × Nat) x => (acc.1 ++ [acc.2 + x], acc.2 + x)) (pre, tot)).1 =
+        pre ++ runSums tot l := by
+    intro l
+    induction l with
+    | nil => intro pre tot; simp [runSums]
+    | cons x t ih => intro pre tot; simp only [List.foldl_cons, ih, runSums]; simp
+  simp only [cumsum0, h]
+  rfl
+
+theorem idxOf_slice (u : List V) (pre mid : List V) (post : List V) :
+    (((pre ++ mid ++ post).map (fun x => u.idxOf x)).drop pre.length).take mid.length =
+      mid.map (fun x => u.idxOf x) := by
+  simp only [List.map_append, List.append_assoc]
+  rw [List.drop_left' (by simp)]
+  rw [List.take_left' (by simp)]
+
+/-- a series as produced by `partition` / `sensor_to_categorical`: well-formed, at least one
+    event, first event at dump 0 -/
+def Cat.Part (c : Cat V) : Prop := c.WF ∧ c.idx ≠ [] ∧ c.ev.head? = some 0
+
+theorem runSums_getLastD (l : List Nat) : ∀ (s : Nat), (s :: runSums s l).getLastD 0 = s + l.sum := by
+  induction l with
+  | nil => intro s; simp [runSums, List.getLastD]
+  | cons x t ih =>
+    intro s
+    simp only [runSums, getLastD_cons_cons, ih, List.sum_cons]
+    omega
+
+theorem part_view (c : Cat V) (h : c.Part) :
+    ∃ (i0 : Nat) (rest : List (Nat × Nat)),
+      c.idx = i0 :: rest.map (·.1) ∧ c.ev = 0 :: (rest.map (·.2) ++ [c.numDumps]) := by
+  obtain ⟨i0, e0, rest, hi, he⟩ := wf_view c h.1 h.2.1
+  have := h.2.2
+  rw [he] at this
+  simp only [List.head?_cons, Option.some.injEq] at this
+  subst this
+  exact ⟨i0, rest, hi, he⟩
+
+theorem dropLast_cons_snoc {α : Type} (a n : α) (l : List α) : (a :: (l ++ [n])).dropLast = a :: l := by
+  have : a :: (l ++ [n]) = (a :: l) ++ [n] := rfl
+  rw [this, List.dropLast_concat]
+
+theorem go_spec (u : List V) (all : List V) (hu : ∀ x ∈ all, x ∈ u) :
+    ∀ (ps : List (Cat V)) (pre : List V) (s : Nat),
+    all = pre ++ (ps.map (·.uniq)).flatten → (∀ p ∈ ps, p.Part) →
+    ∃ I E, concatenate.go (u, all.map (fun x => u.idxOf x)) ps pre.length
+        (s :: runSums s (ps.map Cat.numDumps)) = .ok (I, E) ∧
+      I.length = E.length ∧ (ps ≠ [] → E.head? = some s) ∧ (ps = [] → E = []) ∧
+      (∀ i ∈ I, i < u.length) ∧
+      (E ++ [s + (ps.map Cat.numDumps).sum]).Pairwise (· < ·) ∧
+      (∀ e ∈ E, s ≤ e) ∧
+      expand (E ++ [s + (ps.map Cat.numDumps).sum]) (I.map (fun i => u[i]?)) =
+        (ps.map (fun p => expand p.ev p.values)).flatten := by
+  intro ps
+  induction ps with
+  | nil =>
+    intro pre s _ _
+    exact ⟨[], [], by simp [concatenate.go, pure, Except.pure], rfl, by simp, by simp, by simp, by simp, by simp,
+      by simp [expand]⟩
+  | cons p ps' ih =>
+    intro pre s hall hparts
+    have hp : p.Part := hparts p (List.mem_cons_self ..)
+    obtain ⟨i0, rest, hi, he⟩ := part_view p hp
+    have hall' : all = (pre ++ p.uniq) ++ (ps'.map (·.uniq)).flatten := by
+      rw [hall]; simp
+    obtain ⟨I', E', hgo', hlen', hhead', hnil', hI', hsorted', hge', hexp'⟩ :=
+      ih (pre ++ p.uniq) (s + p.numDumps) hall' (fun q hq => hparts q (List.mem_cons_of_mem _ hq))
+    -- this part
+    have hlookup : ((all.map (fun x => u.idxOf x)).drop pre.length).take p.uniq.length =
+        p.uniq.map (fun x => u.idxOf x) := by
+      rw [hall]
+      simp only [List.map_cons, List.flatten_cons, ← List.append_assoc]
+      exact idxOf_slice u pre p.uniq _
+    have hidxlt : ∀ i ∈ p.idx, i < (p.uniq.map (fun x => u.idxOf x)).length := by
+      intro i hi'; simpa using hp.1.2.2.1 i hi'
+    have htake := takeIdx_getD (p.uniq.map (fun x => u.idxOf x)) 0 p.idx hidxlt
+    have hplen : (pre ++ p.uniq).length = pre.length + p.uniq.length := by simp
+    have hstrict := strictInc_pairwise _ hp.1.1
+    rw [he] at hstrict
+    have hdl : p.ev.dropLast = 0 :: rest.map (·.2) := by rw [he]; exact dropLast_cons_snoc _ _ _
+    refine ⟨p.idx.map (fun i => (p.uniq.map (fun x => u.idxOf x)).getD i 0) ++ I',
+      p.ev.dropLast.map (· + s) ++ E', ?_, ?_, ?_, by simp, ?_, ?_, ?_, ?_⟩
+    · simp only [concatenate.go, List.map_cons, runSums, hlookup, htake, bind, Except.bind]
+      rw [hplen] at hgo'
+      rw [hgo']
+      rfl
+    · simp only [List.length_append, List.length_map, hlen', hdl, hi, List.length_cons]
+    · intro _
+      simp [hdl]
+    · intro i hi'
+      simp only [List.mem_append, List.mem_map] at hi'
+      rcases hi' with ⟨j, hj, rfl⟩ | hi'
+      · have hjlt : j < p.uniq.length := hp.1.2.2.1 j hj
+        simp only [List.getD, List.getElem?_map, List.getElem?_eq_getElem hjlt, Option.map_some, Option.getD_some]
+        apply List.idxOf_lt_length_iff.mpr
+        apply hu
+        rw [hall]
+        simp only [List.map_cons, List.flatten_cons, List.mem_append]
+        exact Or.inr (Or.inl (List.getElem_mem hjlt))
+      · exact hI' i hi'
+    · -- strictly increasing boundaries
+      simp only [List.map_cons, List.sum_cons, List.append_assoc]
+      have hsum : s + (p.numDumps + (ps'.map Cat.numDumps).sum) = s + p.numDumps + (ps'.map Cat.numDumps).sum := by omega
+      rw [hsum]
+      rw [List.pairwise_append]
+      refine ⟨?_, hsorted', ?_⟩
+      · rw [hdl, List.pairwise_map]
+        have : (0 :: rest.map (·.2)).Sublist (0 :: (rest.map (·.2) ++ [p.numDumps])) :=
+          List.Sublist.cons_cons _ (List.sublist_append_left _ _)
+        exact (List.Pairwise.sublist this hstrict).imp (fun h => by omega)
+      · intro a ha b hb
+        rw [hdl] at ha
+        simp only [List.mem_map] at ha
+        obtain ⟨x, hx, rfl⟩ := ha
+        have hxN : x < p.numDumps := by
+          have h1 : (0 :: rest.map (·.2) ++ [p.numDumps]).Pairwise (· < ·) := hstrict
+          exact (List.pairwise_append.mp h1).2.2 x hx p.numDumps (by simp)
+        have hb' : s + p.numDumps ≤ b := by
+          simp only [List.mem_append, List.mem_singleton] at hb
+          rcases hb with hb | rfl
+          · exact hge' b hb
+          · omega
+        omega
+    · intro e he'
+      simp only [List.mem_append, List.mem_map] at he'
+      rcases he' with ⟨x, _, rfl⟩ | he'
+      · omega
+      · have := hge' e he'; omega
+    · -- the written-out segments
+      simp only [List.map_cons, List.sum_cons, List.flatten_cons, List.map_append, List.append_assoc]
+      have hsum : s + (p.numDumps + (ps'.map Cat.numDumps).sum) = s + p.numDumps + (ps'.map Cat.numDumps).sum := by omega
+      rw [hsum]
+      -- head of what follows this part is `s + p.numDumps`
+      have hb : ∃ B, E' ++ [s + p.numDumps + (ps'.map Cat.numDumps).sum] = (s + p.numDumps) :: B := by
+        cases hps : ps' with
+        | nil =>
+          have := hnil' hps
+          subst this
+          exact ⟨[], by simp [hps]⟩
+        | cons q qs =>
+          have := hhead' (by rw [hps]; simp)
+          cases hE : E' with
+          | nil => rw [hE] at this; simp at this
+          | cons b B =>
+            rw [hE] at this
+            simp only [List.head?_cons, Option.some.injEq] at this
+            subst this
+            exact ⟨_, rfl⟩
+      obtain ⟨B, hB⟩ := hb
+      rw [hB] at hexp' ⊢
+      rw [expand_append _ _ _ _ _ (by simp [hdl, hi])]
+      rw [hexp']
+      congr 1
+      -- this part: shift invariance and values
+      have hev : p.ev.dropLast.map (· + s) ++ [s + p.numDumps] = p.ev.map (· + s) := by
+        rw [hdl, he]; simp [Nat.add_comm]
+      rw [hev, expand_shift]
+      congr 1
+      simp only [Cat.values, List.map_map]
+      apply List.map_congr_left
+      intro j hj
+      have hjlt : j < p.uniq.length := hp.1.2.2.1 j hj
+      simp only [Function.comp, List.getD, List.getElem?_map, List.getElem?_eq_getElem hjlt, Option.map_some,
+        Option.getD_some]
+      apply getElem?_idxOf_of_mem
+      apply hu
+      rw [hall]
+      simp only [List.map_cons, List.flatten_cons, List.mem_append]
+      exact Or.inr (Or.inl (List.getElem_mem hjlt))
+
+theorem part_perDump (c : Cat V) (h : c.Part) : c.perDump = expand c.ev c.values := by
+  obtain ⟨i0, rest, _, he⟩ := part_view c h
+  simp [Cat.perDump, he]
+
+/-- **concatenate_categorical**: for series that start at dump 0 the per-dump list of the result
+    is the concatenation of the per-dump lists (with or without repeat removal), the result is
+    well-formed, starts at dump 0 and covers the sum of the dumps -/
+theorem concat_spec (parts : List (Cat V)) (hparts : ∀ p ∈ parts, p.Part) (hne : parts ≠ []) (rep : Bool) :
+    ∃ c, concatenate parts rep = .ok c ∧ c.Part ∧
+      c.perDump = (parts.map Cat.perDump).flatten ∧ c.numDumps = (parts.map Cat.numDumps).sum := by
+  match parts, hne, hparts with
+  | [c], _, hparts =>
+    exact ⟨c, rfl, hparts c (List.mem_cons_self ..), by simp, by simp⟩
+  | p :: q :: ps, _, hparts =>
+    let all := ((p :: q :: ps).map (·.uniq)).flatten
+    let u := uniqueList all
+    have hu : ∀ x ∈ all, x ∈ u := fun x hx => (mem_uniqueList x all).mpr hx
+    obtain ⟨I, E, hgo, hlen, hhead, _, hI, hsorted, _, hexp⟩ :=
+      go_spec u all hu (p :: q :: ps) [] 0 (by simp [all]) hparts
+    have hE : E.head? = some 0 := hhead (by simp)
+    have hany : (p :: q :: ps).any (fun c => decide (c.ev = [])) = false := by
+      simp only [List.any_eq_false, decide_eq_true_eq]
+      intro c hc hev
+      have := (hparts c hc).2.2
+      rw [hev] at this
+      simp at this
+    have hstarts : (cumsum0 ((p :: q :: ps).map Cat.numDumps)).getLastD 0 =
+        0 + ((p :: q :: ps).map Cat.numDumps).sum := by
+      rw [cumsum0_eq, runSums_getLastD]
+    let data : Cat V := { uniq := u, idx := I, ev := E ++ [0 + ((p :: q :: ps).map Cat.numDumps).sum] }
+    have hEne : E ≠ [] := by intro h0; rw [h0] at hE; simp at hE
+    have hIne : I ≠ [] := by
+      intro h0; rw [h0] at hlen
+      exact hEne (List.length_eq_zero_iff.mp hlen.symm)
+    have hdataPart : data.Part := by
+      refine ⟨⟨pairwise_lt_strictInc _ hsorted, by simp [data, hlen], hI, uniqueList_nodup all⟩, hIne, ?_⟩
+      simp only [data]
+      cases E with
+      | nil => exact absurd rfl hEne
+      | cons e t => simpa using hE
+    have hdataPD : data.perDump = ((p :: q :: ps).map Cat.perDump).flatten := by
+      rw [part_perDump data hdataPart]
+      simp only [data, Cat.values]
+      rw [hexp]
+      congr 1
+      apply List.map_congr_left
+      intro c hc
+      exact (part_perDump c (hparts c hc)).symm
+    have hdataN : data.numDumps = ((p :: q :: ps).map Cat.numDumps).sum := by
+      simp only [data, Cat.numDumps, List.getLastD_eq_getLast?, List.getLast?_append]
+      simp
+    have hrun : concatenate (p :: q :: ps) rep = (if rep = true then pure data else data.removeRepeats) := by
+      have hgo' : concatenate.go (uniqueInOrder ((p :: q :: ps).map (·.uniq)).flatten) (p :: q :: ps) 0
+          (cumsum0 ((p :: q :: ps).map Cat.numDumps)) = .ok (I, E) := by
+        rw [cumsum0_eq]
+        exact hgo
+      simp only [concatenate, hany, Bool.false_eq_true, if_false, bind, Except.bind, hgo', hstarts]
+      rfl
+    cases rep with
+    | true => exact ⟨data, by rw [hrun]; rfl, hdataPart, hdataPD, hdataN⟩
+    | false =>
+      obtain ⟨c', hrr, hwf', hpd', hN', _, _⟩ := removeRepeats_spec data hdataPart.1 hIne
+      refine ⟨c', by rw [hrun]; exact hrr, ⟨hwf', ?_, ?_⟩, by rw [hpd', hdataPD], by rw [hN', hdataN]⟩
+      · -- still at least one event, still starting at 0: read off from the definition
+        simp only [Cat.removeRepeats] at hrr
+        split at hrr
+        · simp at hrr
+        · simp only [pure, Except.pure, Except.ok.injEq] at hrr
+          subst hrr
+          cases hI0 : data.idx with
+          | nil => exact absurd hI0 hIne
+          | cons i0 it =>
+            cases hE0 : data.ev with
+            | nil => have := hdataPart.1.2.1; rw [hE0] at this; simp at this
+            | cons e0 et => simp [keepChanges]
+      · simp only [Cat.removeRepeats] at hrr
+        split at hrr
+        · simp at hrr
+        · simp only [pure, Except.pure, Except.ok.injEq] at hrr
+          subst hrr
+          cases hI0 : data.idx with
+          | nil => exact absurd hI0 hIne
+          | cons i0 it =>
+            cases hE0 : data.ev with
+            | nil => have := hdataPart.1.2.1; rw [hE0] at this; simp at this
+            | cons e0 et =>
+              have := hdataPart.2.2
+              rw [hE0] at this
+              simp only [List.head?_cons, Option.some.injEq] at this
+              subst this
+              simp [keepChanges]
 
 end Categorical
